@@ -3,7 +3,7 @@
 from __future__ import annotations
 
 from collections.abc import Sequence
-from typing import Callable, ClassVar, Final, cast
+from typing import Any, Callable, ClassVar, Final, cast
 
 import jax
 import jax.numpy as jnp
@@ -14,6 +14,7 @@ from jax2onnx._compat.jax import (
     JaxprEqn,
     Primitive,
     ShapedArray,
+    batching,
 )
 from numpy.typing import ArrayLike
 
@@ -21,7 +22,6 @@ from jax2onnx.converter.typing_support import LoweringContextProtocol
 from jax2onnx.plugins.jax._autodiff_utils import register_jvp_via_jax_jvp
 from jax2onnx.plugins._patching import AssignSpec, MonkeyPatchSpec
 from jax2onnx.plugins._post_check_onnx_graph import expect_graph as EG
-from jax2onnx.plugins.jax.nn._builder_utils import register_unary_elementwise_batch_rule
 from jax2onnx.plugins.plugin_system import PrimitiveLeafPlugin, register_primitive
 
 
@@ -237,7 +237,29 @@ def _standardize_impl(
     return orig(x, axis=axis, mean=None, variance=None, epsilon=epsilon, where=None)
 
 
-register_unary_elementwise_batch_rule(StandardizePlugin._PRIM)
+def _standardize_batch_rule(
+    batched_args: tuple[Any, ...],
+    batch_dims: tuple[Any, ...],
+    *,
+    axis: tuple[int, ...] | None = None,
+    epsilon: float = 0.0,
+) -> tuple[Any, Any]:
+    # standardize reduces over ``axis`` (axes of the UNBATCHED operand), so it is
+    # not elementwise: move the batch axis to the front and shift the axes past it.
+    (x,) = batched_args
+    (bdim,) = batch_dims
+    if bdim is None:
+        return StandardizePlugin._PRIM.bind(x, axis=axis, epsilon=epsilon), None
+    x = jnp.moveaxis(x, bdim, 0)
+    rank = x.ndim - 1
+    axes = _normalize_axes(axis, rank)
+    out = StandardizePlugin._PRIM.bind(
+        x, axis=tuple(a + 1 for a in axes), epsilon=epsilon
+    )
+    return out, 0
+
+
+batching.primitive_batchers[StandardizePlugin._PRIM] = _standardize_batch_rule
 
 
 register_jvp_via_jax_jvp(StandardizePlugin._PRIM, _standardize_impl)
